@@ -6,7 +6,6 @@ REG = dict(
     note='Programs are ASCII text templates; the type-checker fixes are placed in dead code (the original must run without error for the behaviour clause to apply).',
     design_ref='DESIGN.md §6 C22',
 )
-REG = REG_DRAFT
 
 import os, re
 from ..core import Machinery
